@@ -321,7 +321,9 @@ def r33_3(ctx, F):
     ex_cpp = set().union(*[v for k, v in excl.items() if k.startswith('cpp')])
     tokenize = ctx.read('lib/tokenize.cpp')
     m = re.search(r'static\s+const\s+std::unordered_set<std::string>\s+keywords\s*=\s*\{(.*?)\};', tokenize, re.S)
-    removed = set(re.findall(r'"(\w+)"', m.group(1))) if m else set()
+    if not m or 'simplifyKeyword' not in tokenize:
+        raise AnalysisBroken('lib/tokenize.cpp: the file-static `keywords` set that Tokenizer::simplifyKeyword deletes was not found (condition of the tabled word inline)')
+    removed = set(re.findall(r'"(\w+)"', m.group(1)))
     mt = re.search(r'static\s+const\s+std::unordered_set<std::string>\s+stdTypes\s*=\s*\{(.*?)\};', ctx.read('lib/token.cpp'), re.S)
     stdtypes = set(re.findall(r'"(\w+)"', mt.group(1))) if mt else set()
     if 'void' not in stdtypes:
